@@ -77,9 +77,11 @@ def check_case(case):
         if direct and len(recs) > len(direct) and not all(recs[0]['active']):
             both = True
         if len(acts) > 1:
+            acts_l = sorted(acts)
+            diff = sorted({meta[i]['kind'] for i in range(len(meta)) if len({a[i] for a in acts_l}) > 1})
             res.add(viol('activeness_depends_on_path', f'corrected design {key}: activeness '
-                                                       f'{sorted(acts)} from raw vectors {[r["x"] for r in recs][:4]}',
-                         data=dict(d0, kinds=[m['kind'] for m in meta])))
+                                                       f'{acts_l} from raw vectors {[r["x"] for r in recs][:4]}',
+                         data=dict(d0, kinds=[m['kind'] for m in meta], diff_kinds=diff)))
             break
     # enumeration vs decode (COMPLETE)
     if enc == 'COMPLETE' and not res.violations:
@@ -103,16 +105,19 @@ def check_case(case):
                     if proc.discrete_part(meta, rec['x_corr']) != proc.discrete_part(meta, x):
                         continue  # C04
                     if rec['active'] != listed:
+                        diff = sorted({meta[i]['kind'] for i in range(len(meta)) if listed[i] != rec['active'][i]})
                         res.add(viol('enumeration_activeness_differs_from_decode',
                                      f'row {x}: listed {listed}, decode(create={create}) {rec["active"]}',
-                                     data=dict(d0, create=create, kinds=[m['kind'] for m in meta])))
+                                     data=dict(d0, create=create, kinds=[m['kind'] for m in meta], diff_kinds=diff)))
                         break
                 key = proc.discrete_part(meta, x)
                 for rec in by_corr.get(key, []):
                     if rec['active'] != listed:
+                        diff = sorted({meta[i]['kind'] for i in range(len(meta)) if listed[i] != rec['active'][i]})
                         res.add(viol('enumeration_activeness_differs_from_decode',
                                      f'row {x}: listed {listed}, raw vector {rec["x"]} corrected to it reports '
-                                     f'{rec["active"]}', data=dict(d0, create='corrected', kinds=[m['kind'] for m in meta])))
+                                     f'{rec["active"]}', data=dict(d0, create='corrected', kinds=[m['kind'] for m in meta],
+                                                                  diff_kinds=diff)))
                         break
                 if len(res.violations) > 40:
                     break
